@@ -25,12 +25,15 @@ def snapshot(p):
     import blackbird
     sys.path.insert(0, fw.VERIF + "/lib")
     import worker
-    try:
-        d = blackbird.dumps(p)
-    except Exception as e:  # noqa: BLE001
-        d = "ERR:%s" % type(e).__name__
     obs = json.dumps(worker.observe(p), sort_keys=True)
     keys = json.dumps([[sorted(o.keys()) for o in p.operations]])
+    # how register transforms present themselves (text, printed form, registers in the listed order) is content too
+    trf = []
+    for o in p.operations:
+        for v in list(o.get("args", [])) + list(o.get("kwargs", {}).values()):
+            if hasattr(v, "regrefs") and hasattr(v, "func_str"):
+                trf.append([str(v.func_str), str(v), repr(v), [int(r) for r in v.regrefs]])
+    keys += json.dumps(trf)
     ids = set()
 
     def walk(x, depth=0):
@@ -53,6 +56,12 @@ def snapshot(p):
             for v in vars(x).values():
                 walk(v, depth + 1)
     walk(p)
+    # the dump is taken LAST: serialising is itself one of the read-only operations, so the content above is recorded
+    # before this snapshot's own dumps call and the next snapshot sees whatever that call changed
+    try:
+        d = blackbird.dumps(p)
+    except Exception as e:  # noqa: BLE001
+        d = "ERR:%s" % type(e).__name__
     return d, obs + keys, ids
 
 
@@ -89,6 +98,13 @@ def gen_template(rng):
         # measured-register arguments: the transform objects are mutable (regrefs list) and must be copied with the program
         lines.append("MeasureX | 0")
         lines.append(rng.choice(["Zgate(2 * q0) | 1", "Dgate(0.5, phi=q0 / 2) | 2", "Xgate(q0 + 1, 0.25) | 1"]))
+        if rng.random() < 0.6:
+            # several registers in one argument (their listed order is part of the delivered transform) and spellings that the
+            # serialiser writes differently from the way the transform prints itself
+            lines += ["MeasureX | 2", "MeasureX | 10", "MeasureX | 12"]
+            for _ in range(rng.randint(1, 3)):
+                lines.append(rng.choice(["Zgate(q2 - q10) | 1", "Dgate(q10 / 4 - q0, phi=q12 * q2 - q0) | 3", "Xgate(q12 - 2 * q2 + q10 * q0) | 1",
+                                         "Zgate(-1 * q0 ** 2) | 3", "Xgate(1j * q2) | 1", "Kgate(k=q10 - q12 / 3) | 3", "Zgate(-(q2 + 1) ** 2) | 1"]))
     if rng.random() < 0.3:
         lines.append("float array N =\n    -1.5, -0.0\n    2, -3")
         lines.append("Ggate(N) | [0, 1]")
